@@ -180,8 +180,13 @@ def observe(tree, output=False):
             if isinstance(n, ast.FunctionDef):
                 gen_returns |= tail_returns(n)
 
-    def walk(n, pk, pf, exempt, under_ifexp, genarg, path=()):
-        k = kind_of(n, ('gen-arg',) if genarg else None, scopes, False)
+    def names_bound(t):
+        return frozenset(x.id for x in ast.walk(t) if isinstance(x, ast.Name)) if t is not None else frozenset()
+
+    def walk(n, pk, pf, exempt, under_ifexp, genarg, path=(), shadow=frozenset()):
+        # a call NAME.attr(...) is a function-scope call only when NAME really denotes the scope object: not when
+        # a lambda / def parameter, comprehension target or except-as name of the user shadows it there
+        k = kind_of(n, ('gen-arg',) if genarg else None, scopes - shadow, False)
         if isinstance(n, ast.Return) and id(n) in gen_returns:
             k = 'Return.gen'
         if k in FAMILY:
@@ -189,7 +194,21 @@ def observe(tree, output=False):
         is_ifexp_call = isinstance(n, ast.Call) and dotted(n.func) == 'ag__.if_exp'
         is_cc = output and isinstance(n, ast.Call) and dotted(n.func) == 'ag__.converted_call'
         kk = type(n).__name__
+        scope_lambda = is_wfs = isinstance(n, ast.Call) and dotted(n.func) == 'ag__.with_function_scope'
         for f, c in children(n):
+            sh = shadow
+            if isinstance(n, ast.Lambda) and f == 'body' and not getattr(n, '_c04_scope_lambda', False):
+                a = n.args
+                sh = sh | frozenset(x.arg for x in a.posonlyargs + a.args + a.kwonlyargs + [y for y in (a.vararg, a.kwarg) if y])
+            elif isinstance(n, ast.FunctionDef) and f == 'body':
+                a = n.args
+                sh = sh | frozenset(x.arg for x in a.posonlyargs + a.args + a.kwonlyargs + [y for y in (a.vararg, a.kwarg) if y])
+            elif isinstance(n, (ast.ListComp, ast.SetComp, ast.GeneratorExp, ast.DictComp)):
+                sh = sh | frozenset().union(*[names_bound(g.target) for g in n.generators])
+            elif isinstance(n, ast.ExceptHandler) and f == 'body' and n.name:
+                sh = sh | frozenset([n.name])
+            if is_wfs and f == 'args' and n.args and c is n.args[0] and isinstance(c, ast.Lambda):
+                c._c04_scope_lambda = True      # its parameter IS the scope object
             ga = False
             if is_cc and f == 'args' and c in n.args[1:3]:
                 ga = True
@@ -198,8 +217,23 @@ def observe(tree, output=False):
             tk = k if k.startswith(('Call', 'UnaryOp', 'Return')) else kk
             walk(c, tk, f,
                  exempt or (kk, f) in EXEMPT, under_ifexp or is_ifexp_call or isinstance(n, ast.IfExp), ga,
-                 path + ((tk, f),))
+                 path + ((tk, f),), sh)
     walk(tree, None, None, False, False, False)
+    return out
+
+
+def identifiers(src):
+    """Every identifier the user wrote in a program (names, parameters, except-as names, attributes excluded)."""
+    out = set()
+    for n in ast.walk(ast.parse(src)):
+        if isinstance(n, ast.Name):
+            out.add(n.id)
+        elif isinstance(n, ast.arg):
+            out.add(n.arg)
+        elif isinstance(n, ast.ExceptHandler) and n.name:
+            out.add(n.name)
+        elif isinstance(n, (ast.FunctionDef, ast.ClassDef)):
+            out.add(n.name)
     return out
 
 
@@ -391,6 +425,9 @@ EXPR_STMT_CTX = [(n, t.replace('{{', '{').replace('}}', '}'), e) for n, t, e in 
 EXPR_CTX = [(n, t.replace('{{', '{').replace('}}', '}'), e) for n, t, e in EXPR_CTX]
 
 
+VOCAB = ['fscope', 'lscope', 'fscope_1']
+
+
 def expr_markers(i):
     return [('Call', 'c%d(a)' % i), ('Call.method', 'c%d.m(a)' % i), ('IfExp', '(1 if t%d else 2)' % i),
             ('BoolOp.and', '(b%d and a)' % i), ('BoolOp.or', '(b%d or a)' % i), ('UnaryOp.Not', '(not n%d)' % i),
@@ -463,12 +500,24 @@ def catalogue(seed, tier):
             EXPR_CTX, EXPR_CTX):
         combos.append((sn, sc, en, ec, ex0, c1n, c1, ex1, c2n, c2, ex2))
     rnd.shuffle(combos)
-    ncombo = 300 if tier == 'quick' else 3500
+    ncombo = 200 if tier == 'quick' else 3500
     for (sn, sc, en, ec, ex0, c1n, c1, ex1, c2n, c2, ex2) in combos[:ncombo]:
         mk, m = rnd.choice(expr_markers(0))
         e = c1.replace('{H}', c2.replace('{H}', m))
         add('%s/%s/%s/%s<-%s' % (sn, en, c1n, c2n, mk), fill_stmt(sc, ec.replace('{H}', e)),
             ex0 or ex1 or ex2, mk)
+    # identifiers drawn from the converter's own vocabulary, as lambda / def parameters, comprehension targets
+    # and except-as names at every block position, with an attribute call on them: the call must be routed, and
+    # the generated function-scope name must be fresh (checked by the oracle)
+    for vname in (VOCAB[:2] if tier == 'quick' else VOCAB):
+        for cname, ctx in STMT_CTX:
+            for shape, body in (
+                    ('lambda-param', 'h = lambda %s: %s.run(a)\nx = h(d)' % (vname, vname)),
+                    ('lambda-param.nested', 'h = lambda q: (lambda %s: %s.run(q))(q)\nx = h(d)' % (vname, vname)),
+                    ('comprehension-target', 'x = [%s.run(a) for %s in xs]' % (vname, vname)),
+                    ('except-as', 'try:\n    x = 1\nexcept E as %s:\n    x = %s.with_traceback(None)' % (vname, vname)),
+                    ('def-param', 'def inner2(%s):\n    return %s.run(a)\nx = inner2(d)' % (vname, vname))):
+                add('vocab:%s/%s<-%s' % (cname, shape, vname), fill_stmt(ctx, body), False, 'Call.vocab')
     # two statement levels + statement marker
     pairs = list(itertools.product(STMT_CTX, STMT_CTX))
     rnd.shuffle(pairs)
@@ -487,7 +536,7 @@ def catalogue(seed, tier):
 
 # ------------------------------------------------------------------ dynamic oracle
 
-DYN_HEAD = 'def f(T, g, cm, xs):\n    acc = 0\n'
+DYN_HEAD = 'def f(T, g, cm, xs, o):\n    acc = 0\n'
 
 
 class DynGen(object):
@@ -509,9 +558,15 @@ class DynGen(object):
 
     def expr(self, d):
         r = self.rnd
-        c = r.randrange(11 if d > 0 else 3)
+        c = r.randrange(13 if d > 0 else 3)
         if c <= 2:
             return self.t('plain', self.atom())
+        if c == 11:
+            v = r.choice(VOCAB)
+            return '(lambda %s: %s.run%s)(o)' % (v, v, self.t('plain', self.atom())[1:])
+        if c == 12:
+            v = r.choice(VOCAB)
+            return 'sum([%s.run%s for %s in [o]])' % (v, self.t('plain', self.atom())[1:], v)
         if c == 3:
             return '(%s and %s)' % (self.t('bool-first', self.atom()), self.expr(d - 1))
         if c == 4:
@@ -599,6 +654,10 @@ class Tracer(object):
         self.log.append(('T', k, via, self.in_while_test > 0))
         return v
 
+    def run(self, k, v):
+        # the tracer as an object: `NAME.run(k, v)` with NAME a lambda parameter / comprehension target
+        return self.T(k, v)
+
 
 class _CM(object):
     def __enter__(self):
@@ -615,7 +674,7 @@ def run_dynamic(impl, src, roles, check_operators=True):
     tr0 = Tracer()
     g = lambda *a, **k: (a[0] if a else 0)   # noqa
     try:
-        want = mod.f(tr0.T, g, _CM(), [1, 2])
+        want = mod.f(tr0.T, g, _CM(), [1, 2], tr0)
     except Exception as e:   # noqa
         return 'error', 'original raised %s' % type(e).__name__
     try:
@@ -633,7 +692,7 @@ def run_dynamic(impl, src, roles, check_operators=True):
 
         def w(*a, **k):
             tr.log.append(('op', name))
-            if name == 'converted_call' and getattr(a[0], '__self__', None) is tr and a[0].__name__ == 'T':
+            if name == 'converted_call' and getattr(a[0], '__self__', None) is tr and a[0].__name__ in ('T', 'run'):
                 tr.pending += 1
             if name == 'while_stmt':
                 test = a[0]
@@ -651,7 +710,7 @@ def run_dynamic(impl, src, roles, check_operators=True):
         hook(nm)
     try:
         try:
-            got = conv(tr.T, g, _CM(), [1, 2])
+            got = conv(tr.T, g, _CM(), [1, 2], tr)
         except Exception as e:   # noqa
             return 'diverged', 'converted raised %s: %s' % (type(e).__name__, str(e)[:200])
     finally:
@@ -690,6 +749,11 @@ def run_dynamic(impl, src, roles, check_operators=True):
         surv = []
     for o in surv:
         problems.append('native %s (under %s.%s) in the generated code' % (o[0], o[2], o[3]))
+    try:
+        for nm in sorted(scope_names(ast.parse(code)) & identifiers(src)):
+            problems.append('generated function-scope name %s is also an identifier of the user' % nm)
+    except SyntaxError:
+        pass
     if problems:
         return 'routing', {'problems': problems[:5], 'generated_code': code}
     if [e[1] for e in tl] != [e[1] for e in tr0.log] or got != want:
@@ -766,6 +830,7 @@ def _check(run, tmp):
         src = '\n\n'.join(p['src'].replace('def f(', 'def f%d(' % (i + j), 1) for j, p in enumerate(chunk))
         mod = impl.load(src)
         for j, p in enumerate(chunk):
+            p['identifiers'] = identifiers(p['src'])
             p['fn'] = getattr(mod, 'f%d' % (i + j))
             p['idx'] = i + j
 
@@ -778,11 +843,12 @@ def _check(run, tmp):
     for feats in feature_sets:
         fl = list(feats)
         for p in progs:
-            if feats and p['marker'] != 'Call.print' and (p['idx'] % (11 if quick else 2)):
+            if feats and p['marker'] != 'Call.print' and (p['idx'] % (17 if quick else 2)):
                 continue          # BUILTIN_FUNCTIONS only changes print: full sweep of print, a seventh of the rest
             sink = []
             try:
-                if passes is not None and (not quick or p['name'].count('/') <= 1 or p['idx'] % 3 == 0):
+                if passes is not None and not p['name'].startswith('vocab:') and (
+                        not quick or p['name'].count('/') <= 1 or p['idx'] % 4 == 0):
                     with impl.recording(passes, sink):
                         out = impl.convert_ast(p['fn'], fl)
                 else:
@@ -798,6 +864,17 @@ def _check(run, tmp):
             if not p['exempt']:
                 reached += 1
                 run.nontriv(('prog', p['name'], feats))
+            # side condition of the "calls on the function scope are left alone" rule: the scope name is fresh
+            # w.r.t. every identifier of the function, hidden ones (parameters of nested lambdas/defs,
+            # comprehension targets, except-as names) included
+            clash = sorted(scope_names(out) & p['identifiers'])
+            if clash:
+                failures.append({
+                    'title': 'generated function-scope name %s is also an identifier of the user (%s)' % (
+                        '/'.join(clash), p['name']),
+                    'classify': None,
+                    'replay': {'program': p['src'], 'optional_features': fl, 'context': p['name'],
+                               'clashing_names': clash, 'generated_code': _unparse(impl, out)}})
             # static oracle
             if surv:
                 known = all(o[0] == 'IfExp' and o[5] for o in surv)
@@ -917,6 +994,10 @@ def _check(run, tmp):
         'exempt positions (Route/Pipeline.v spec_exempt): with-items, comprehension clauses (documented); parameter '
         'declarations / annotations / type parameters (outside the C01 program class)',
         'sub-kinds of Call/UnaryOp/Return are assigned by the exporter from callee names / operators / position',
+        'side condition of the Call.fscope rule (call_trees leaves calls on `<context name>.` alone): the context name '
+        'is fresh w.r.t. every identifier of the function, hidden ones included; checked by the oracle on every '
+        'conversion (scope names of the output vs identifiers of the input) and a scope-looking call under a user '
+        'binding of that name is judged as a user call',
         'slices.py builds part of a template with str.replace; the slice(...) call it adds is not in the table '
         '(it precedes call_trees, which converts it)',
     ]
@@ -939,11 +1020,11 @@ def _only_known_ifexp(code):
     return bool(surv) and all(o[0] == 'IfExp' and o[5] for o in surv)
 
 
-MARKER_KIND = {'Call': 'Call', 'Call.method': 'Call', 'IfExp': 'IfExp', 'BoolOp.and': 'BoolOp', 'BoolOp.or': 'BoolOp',
+MARKER_KIND = {'Call.vocab': 'Call', 'Call': 'Call', 'Call.method': 'Call', 'IfExp': 'IfExp', 'BoolOp.and': 'BoolOp', 'BoolOp.or': 'BoolOp',
                'UnaryOp.Not': 'UnaryOp.Not', 'Call.print': 'Call.print', 'Call.debugger': 'Call.debugger',
                'If': 'If', 'While': 'While', 'For': 'For', 'Break': 'Break', 'Continue': 'Continue',
                'Return': 'Return', 'Return.none': 'Return'}
-MARKER_IDS = {'Call': 'c0', 'Call.method': 'c0', 'IfExp': 't0', 'BoolOp.and': 'b0', 'BoolOp.or': 'b0',
+MARKER_IDS = {'Call.vocab': None, 'Call': 'c0', 'Call.method': 'c0', 'IfExp': 't0', 'BoolOp.and': 'b0', 'BoolOp.or': 'b0',
               'UnaryOp.Not': 'n0', 'Call.print': 'print', 'Call.debugger': 'breakpoint', 'If': 'i0', 'While': 'w0',
               'For': 'f0', 'Break': 'break', 'Continue': 'continue', 'Return': 'r0', 'Return.none': None}
 
